@@ -117,6 +117,9 @@ def check_case(col, t, seed):
         col.bump("not_judged_singular_above_true_order" if s["ordmax"] > n else "not_judged_ill_conditioned_identification")
         return
     site = f"plscf.pLSCF[sign {sgn:+d}]"
+    if len(Ad) != s["ordmax"] or len(Bn) != s["ordmax"]:
+        col.violation(f"{site}/orders", f"{site}: {len(Ad)} denominator / {len(Bn)} numerator models returned for ordmax = {s['ordmax']}", rep)
+        return
     got = np.asarray(Ad[n - 1])
     if got.shape != A.shape:
         col.violation(f"{site}/coefficient_shape", f"{site}: order-{n} denominator has shape {got.shape}, expected {A.shape}", rep)
